@@ -48,3 +48,18 @@ def any_in(s, chars):
         if c in chars:
             return True
     return False
+
+
+def int_or_none(s):
+    """python int(s), or None when s is absent (None) or int() rejects the text"""
+    if s is None:
+        return None
+    try:
+        return int(s)
+    except ValueError:
+        return None
+
+
+def seq_filter_map(lst, pred, proj):
+    """[proj(x) for x in lst if pred(x)]  (a monoid homomorphism on lists)"""
+    return [proj(x) for x in lst if pred(x)]
